@@ -104,7 +104,7 @@ func zvHFollow(q vrt.ConcInst) bool {
 }
 
 func ZvC01_Heap() {
-	vrt.ConcShapes = 2
+	vrt.ConcShapes = 1 // all eleven methods pairwise
 	vrt.ConcCheck("C01", "Heap", zvMkHeap(zvCVals(2), vrt.Int()), vrt.ConcProgram(vrt.ConcShape(), zvHAll), nil, true, false, zvHFollow)
 }
 func ZvC02_Heap() {
